@@ -88,6 +88,8 @@ def main():
     env["implies"] = lambda a, b: (not a) or b
     env["iff"] = lambda a, b: bool(a) == bool(b)
     env["fresh"] = lambda x: id(x) not in pre_ids
+    import re as _re
+    env["matches"] = lambda pat, s_: isinstance(s_, type(pat)) and _re.fullmatch(pat, s_) is not None
     tree = None
     if clause:
         tree = ast.parse(clause, mode="eval")
